@@ -391,7 +391,10 @@ impl Gen {
                 let mut chosen: Vec<(String, bool)> = vec![];
                 for (p, is_file) in view {
                     let par = parent_of(p);
-                    let par_ok = par.is_empty() || chosen.iter().any(|(c, f)| *c == par && !*f);
+                    // a parent that is not itself part of the view is a structural prefix (altroot
+                    // directory, layer directory) which the builder creates
+                    let par_in_view = view.iter().any(|(c, _)| *c == par);
+                    let par_ok = par.is_empty() || !par_in_view || chosen.iter().any(|(c, f)| *c == par && !*f);
                     if par_ok && (!subset || self.rng.pct(60)) {
                         chosen.push((p.clone(), *is_file));
                     }
@@ -428,6 +431,16 @@ impl Gen {
                     self.populate(l, view, true);
                 }
             }
+            Spec::OvlSub { base, dirs } => {
+                let n = dirs.len();
+                for (i, d) in dirs.clone().iter().enumerate() {
+                    if i == 0 && n > 1 && self.rng.pct(40) {
+                        continue;
+                    }
+                    let v: Vec<(String, bool)> = view.iter().map(|(q, f)| (format!("{}{}", d, q), *f)).collect();
+                    self.populate(base, &v, true);
+                }
+            }
         }
     }
 
@@ -450,6 +463,8 @@ impl Gen {
             for l in layers.iter_mut() {
                 self.add_beside(l);
             }
+        } else if let Spec::OvlSub { base, .. } = spec {
+            self.add_beside(base);
         }
     }
 
@@ -479,6 +494,10 @@ impl Gen {
             1 => {
                 let inner = self.gen_spec(depth - 1, phys_pct, max_layers);
                 Spec::Alt { inner: Box::new(inner), p: self.alt_p(true) }
+            }
+            _ if self.rng.pct(15) => {
+                let n = self.rng.range(2, max_layers.max(2));
+                Spec::OvlSub { base: Box::new(self.leaf(phys_pct)), dirs: LAYER_DIRS.iter().take(n).map(|s| s.to_string()).collect() }
             }
             _ => {
                 let n = self.rng.range(1, max_layers);
@@ -521,5 +540,12 @@ fn push_leaf(spec: &mut Spec, extra: Vec<Pre>) {
                 push_leaf(l, extra)
             }
         }
+        Spec::OvlSub { base, dirs } => {
+            let d = dirs[0].clone();
+            let e2 = extra.into_iter().map(|e| Pre { path: format!("{}{}", d, e.path), file: e.file }).collect();
+            push_leaf(base, e2)
+        }
     }
 }
+
+pub const LAYER_DIRS: &[&str] = &["/LAYERDIR_u", "/LAYERDIR_m", "/LAYERDIR_l", "/LAYERDIR_k"];
